@@ -32,15 +32,18 @@ TRUSTED = [
     "the measure statement is exported without ';' (open known finding measure-without-semicolon, pinned by tests/test_qasm.py): for circuits "
     "with a Measurement the validity clause is reported as that finding and the remaining clauses are checked on the text with the ';' supplied",
     "Spec/QasmStrict.v (strict lexer + parser written from the grammar of the specification) and Spec/Qasm.v / QasmSem.v (semantics, "
-    "qelib1.inc by hand) are the oracle; PROVED for all values: every printed number is one numeral token and every gate statement line lexes to the tokens of a statement "
-    "(export_number_lexes, export_statement_lexes); the whole-text assembly and the parser's acceptance of those tokens are CHECKED "
-    "(vm_compute of strict_parse on the model's text) on every generated measurement-free circuit",
+    "wf, qelib1.inc by hand) are the oracle; PROVED for all circuits (export_valid): the whole exported text of a measurement-free circuit is accepted by "
+    "the strict reader and the program it returns (given explicitly, prog_of) is well-formed, under the explicit guards shapes_ok (repr shapes) and "
+    "circ_wf (parameter / qubit counts per gate signature, qubit indices < N and distinct, N > 0 - the exporter checks none of these); both guards and "
+    "the acceptance itself are additionally EVALUATED (vm_compute of strict_parse / wf / shapes_ok / circ_wf on the model's own text) on every generated circuit",
     "translators tools/translate/qasm_tr.py and gates_tr.py (fail-closed)",
     "QubitCircuit.gates is read through the public attributes name/targets/controls/arg_value/classical_controls of Gate and "
     "targets/classical_store of Measurement; 0-d arrays, numpy integer qubit indices and gates with a wrong number of parameters are not modelled",
     "equivalence: per record of measurement outcomes, states agree up to a unit scalar",
 ]
-ASSUMES = ["parameters range over all reals via the phase-ring quantification of Found", "circuits carry the number of parameters each gate needs"]
+ASSUMES = ["parameters range over all reals via the phase-ring quantification of Found",
+           "export_valid: circuits are well-formed (circ_wf: parameter and qubit counts as the gate's signature, indices < N, distinct; checked on every generated case)",
+           "export_valid: repr(float) has one of the shapes [-]d.d, [-]d[.d]e+-dd (shapes_ok; checked on every generated case)"]
 
 ONE_PARAM = ["RX", "RY", "RZ", "CRX", "CRY", "CRZ"]
 NO_PARAM_1Q = ["X", "Y", "Z", "SNOT", "S", "T", "SQRTNOT"]
@@ -143,11 +146,13 @@ def ccirc(c):
 
 
 CASE_HEAD = r"""
-From QV Require Import Spec.Qasm Spec.QasmStrict Model.QasmExport.
+From QV Require Import Spec.Qasm Spec.QasmStrict Model.QasmExport Proofs.QasmValid1 Proofs.QasmValid3 Proofs.QasmValid4.
 Local Open Scope string_scope.
 Local Open Scope nat_scope.
+(* text; (strict reader accepts, program well-formed, number of operations); guards of export_valid: (shapes_ok, circ_wf, u_ok) *)
 Definition chk (c : ecirc) := match export c with
-  | Some t => Some (t, match strict_parse t with Some p => (true, wf lib_sigs p, length (p_ops p)) | None => (false, false, 0) end)
+  | Some t => Some (t, match strict_parse t with Some p => (true, wf lib_sigs p, length (p_ops p)) | None => (false, false, 0) end,
+                    (shapes_ok c, circ_wf c, u_ok c))
   | None => None end.
 """
 
@@ -162,7 +167,7 @@ def run_model(tag, circs):
     res = []
     for name, _ in files:
         for v in parse_evals(outs[name]):
-            res.append(None if v is None else v[1])
+            res.append(None if v is None else v[1])          # (text, (lexed, wf, nops), (shapes_ok, circ_wf, u_ok))
     if len(res) != len(circs):
         raise Broken("correspondence-harness:C10", f"model returned {len(res)} results for {len(circs)} circuits")
     return res
@@ -527,7 +532,15 @@ def correspond(ctx):
             corr.disagree(inp, "refused: " + str(err) if text is None else text[-200:], "refused" if m is None else m[0][-200:],
                           "export accepted/refused differs between model and implementation")
         elif text is not None:
-            mtext, (lexed, wf, nops) = m
+            mtext, (lexed, wf, nops), (g_shapes, g_wf, g_u) = m
+            # the guards of export_valid hold on every generated circuit (so the theorem speaks about these cases): the repr(float)
+            # of every parameter has the shape the oracle promises, and the circuits the generator builds are well-formed
+            if not g_shapes:
+                corr.disagree(inp, [v[1] for o in c["ops"] if "gate" in o for v in o["arg"]["vals"] if v[0] == "f"], "digits[.digits][e+-digits]",
+                              "repr(float) of a parameter is outside the shapes the model's oracle assumes (shapes_ok)")
+            elif not (g_wf and g_u):
+                corr.disagree(inp, dict(circ_wf=g_wf, u_ok=g_u), "a well-formed circuit",
+                              "a generated circuit violates circ_wf / u_ok, the explicit guards of export_valid")
             if mtext != text:
                 corr.disagree(inp, text.split("\n\n")[-1][-300:], mtext.split("\n\n")[-1][-300:], "exported text differs")
             elif any("meas" in o for o in c["ops"]):
